@@ -5,6 +5,8 @@ type RAT[K comparable, V any] struct {
 	length int
 	values map[K][]V
 	idx    map[K]int
+	// count is the number of slots written so far for a key (at most length)
+	count map[K]int
 }
 
 func NewRAT[K comparable, V any](length int) *RAT[K, V] {
@@ -12,6 +14,7 @@ func NewRAT[K comparable, V any](length int) *RAT[K, V] {
 		length: length,
 		values: make(map[K][]V),
 		idx:    make(map[K]int),
+		count:  make(map[K]int),
 	}
 }
 
@@ -33,15 +36,9 @@ func (r *RAT[K, V]) Find(k K, predicate func(V) bool) (V, bool) {
 		return zero, false
 	}
 
-	for i := idx; i >= 0; i-- {
-		v := r.values[k][idx]
-		if predicate(v) {
-			return v, true
-		}
-	}
-
-	for i := r.length - 1; i > idx; i-- {
-		v := r.values[k][idx]
+	// From the most recent written slot to the oldest one
+	for n := 0; n < r.count[k]; n++ {
+		v := r.values[k][(idx-n+r.length)%r.length]
 		if predicate(v) {
 			return v, true
 		}
@@ -61,6 +58,9 @@ func (r *RAT[K, V]) Write(k K, value V) {
 
 	r.idx[k] = idx
 	r.values[k][idx] = value
+	if r.count[k] < r.length {
+		r.count[k]++
+	}
 }
 
 func (r *RAT[K, V]) Values() map[K]V {
@@ -73,21 +73,12 @@ func (r *RAT[K, V]) Values() map[K]V {
 
 func (r *RAT[K, V]) FindValues(predicate func(V) bool) map[K]V {
 	m := make(map[K]V)
-	for k, v := range r.idx {
-		found := false
-		for i := v; i >= 0; i-- {
-			if predicate(r.values[k][i]) {
-				m[k] = r.values[k][i]
-				found = true
-				break
-			}
-		}
-		if found {
-			continue
-		}
-		for i := r.length - 1; i > v; i-- {
-			if predicate(r.values[k][i]) {
-				m[k] = r.values[k][i]
+	for k, idx := range r.idx {
+		// From the most recent written slot to the oldest one
+		for n := 0; n < r.count[k]; n++ {
+			v := r.values[k][(idx-n+r.length)%r.length]
+			if predicate(v) {
+				m[k] = v
 				break
 			}
 		}
